@@ -59,7 +59,7 @@ def stock_for(cls, kw):
 def conv_case(rnd, cls, with_q=True):
   log = []
   one_d = cls in ("QConv1D", "QSeparableConv1D")
-  pad_choices = ["valid", "same"] + (["causal"] if cls == "QConv1D" else [])
+  pad_choices = ["valid", "same"] + (["causal"] if cls in ("QConv1D", "QSeparableConv1D") else [])
   pad = rnd.choice(pad_choices)
   s = rnd.choice([1, 1, 2])
   d = rnd.choice([1, 2]) if s == 1 and cls in ("QConv1D", "QConv2D") else 1
